@@ -24,6 +24,10 @@ def run(tier):
     # (growth) inputs nobody chose: value-level mutations of TLC's accepted encodings and of the accepted captures (every field
     # visits the middle of its range), the crate's answer compared with the one TLC computes from the specification
     common.dfuzz(rep, binary, PROP, cases, 4000 if tier != "thorough" else 80000)
+    # (growth) seeded, structurally random values: every field from its whole domain, list counts 0 .. hundreds, extension blocks made of
+    # typed extensions in arbitrary order, alone and inside records of 1..3 messages (RandRoundTrip on the specification, replayed in full)
+    common.mc_replay(rep, binary, PROP, "MC_C04_Rand", keyf=lambda c: "rand:%s:%s" % (c["note"]["t"], c["id"]), run="rand", nchunks=12,
+                     env={"VERIF_SEED": str(vlib.seed())})
     # (growth) every length of the variable-size fields, not only the boundaries (MC_LenSweep)
     common.len_sweep(rep, binary, PROP)
     return rep.finish("model_checking",
